@@ -1,0 +1,39 @@
+//go:build verif
+
+// Contracts for gpverify (contract-based deductive verification, see /verif/DESIGN.md).
+// Comments only: the compiled package is identical with or without the build tag.
+
+package cmdrunner
+
+//@ func cmdrunner.ReattachFunc$1
+//@   nopanic [C15.nf]
+//@   nonblocking
+//@   requires addr != nil
+//@   modifies conns_open
+//@   ensures dial_err(net_of(addr), str_of(addr)) != nil ==> result0 == nil && result1 == cmdrunner.ErrProcessNotFound   [C15.nf]
+//@   ensures result1 == nil ==> result0 != nil && typeis(result0, "*cmdrunner.CmdAttachedRunner") && unbox(result0, "*cmdrunner.CmdAttachedRunner").pid == pid   [C15.nf]
+//@   ensures result1 != nil ==> result0 == nil   [C15.nf]
+//@   ensures conns_open == old(conns_open)   [C15.nf]
+
+//@ func (*cmdrunner.addrTranslator).PluginToHost
+//@   nopanic [C01.d]
+//@   nonblocking
+//@   modifies nothing
+//@   ensures result0 == pluginNet && result1 == pluginAddr && result2 == nil   [C01.translate] [C07.translate]
+
+//@ func (*cmdrunner.addrTranslator).HostToPlugin
+//@   nopanic [C07.total]
+//@   nonblocking
+//@   modifies nothing
+//@   ensures result0 == hostNet && result1 == hostAddr && result2 == nil   [C07.translate]
+
+//@ func cmdrunner.NewCmdRunner
+//@   nopanic [C01.d] [C19.total]
+//@   nonblocking
+//@   requires cmd != nil
+//@   modifies cmd.Stdout, cmd.Stderr
+//@   ensures result1 != nil ==> result0 == nil
+//@   ensures result1 == nil ==> result0 != nil && cmd.Stdout != nil
+//@   ensures old(cmd.Stdout) != nil ==> result1 != nil   [C19.once]
+//@   ensures cmd.Stdout != nil || cmd.Stdout == old(cmd.Stdout)
+//@   ensures launches == old(launches)
